@@ -1,4 +1,5 @@
 """C01 -- encoding writes exactly the SBE wire image (every setter: post-image == reference image, frame elsewhere)."""
+import os
 import hgen, msggen, c02
 from hgen import P, M
 from msggen import SZ, pn, idx
@@ -73,6 +74,29 @@ def build(ctx):
                                         meta={"big_loops": ["ref_walk_%s.%d" % (msg.name, x) for x in range(16)]},
                                         desc="message %s.%s level %s: setter(s) %s write exactly the reference bytes at the reference position; all other bytes unchanged" % (sch.ns, msg.name, lv.name, [a[0] for a in chunk]),
                                         bounds={"N": N, "G": G, "D": D, "std": "c++" + std, "build": mode, "byte_order": "BE" if sch.be else "LE"}))
+    # composition cross-check: one scripted in-order encode (header, fields, groups, entries, data) against the reference image
+    for (xml, std, mode) in c02.plan(ctx)[:2 if ctx.quick else None]:
+        if os.path.isabs(xml): continue
+        sch, inc = hgen.gen_headers(ctx, xml)
+        for msg in sch.messages:
+            if msg.name not in (("comp", "grp", "tailc", "odd", "misc") if ctx.quick else ("prim", "misc", "comp", "grp", "tailc", "odd")): continue   # nested messages: the scripted encode does not finish in 300 s (one-step harnesses cover them)
+            g = msggen.MG(sch, msg, 2)
+            Dd = 1
+            cpp, ref = msggen.encode_script(g, Dd)
+            u = ctx.lower("c01enc_%s_%s" % (sch.ns, msg.name), g.cpp_prelude() + cpp, std=std, mode=mode, incs=[inc])
+            N = g.max_size(0, Dd) + 1
+            body = "  enum { N = %d };\n  IN_BYTES(buf, N); unsigned char old[N], exp[N]; verif_copy(old, buf, N); verif_copy(exp, buf, N);\n" % N
+            body += "  u64 vals[40]; u32 cnts[8], lens[8];\n  IN_BYTES(vb, 40 * 8); for (unsigned i = 0; i < 40; i++) vals[i] = ref_rd(vb + 8 * i, 8, 0);\n"
+            body += "  IN_BYTES(cb, 8); IN_BYTES(lb, 8); for (unsigned i = 0; i < 8; i++) { cnts[i] = cb[i]; lens[i] = lb[i]; VASSUME(cnts[i] <= 2 && lens[i] <= %d); }\n" % Dd
+            body += "".join("  " + l + "\n" for l in ref)
+            body += "  VASSUME(vi <= 40 && ci <= 8 && li <= 8);\n"
+            body += "  CALL(encode_%s(buf, N, (unsigned char *)vals, (unsigned char *)cnts, (unsigned char *)lens));\n" % g.M
+            body += '  VASSERT(!verif_aborted, "an in-order encode that fits the buffer must not invoke the handler");\n'
+            body += '  for (unsigned i = 0; i < N; i++) VASSERT(buf[i] == exp[i], "after an in-order scripted encode the buffer is exactly the reference SBE image; bytes of no written member keep their previous value");\n'
+            hs.append(P.Harness("%s_%s_encode_script_%s_cxx%s" % (sch.ns, msg.name, mode, std), hgen.harness([u], body), [u], unwind=5, cap=ctx.q(300, 900), backends=["minisat", "kissat"],
+                                extra_flags=["--no-standard-checks"],
+                                desc="message %s.%s: scripted in-order encode (fill_message_header, all setters, fill_group_header + entries, data resize + bytes) == reference image" % (sch.ns, msg.name),
+                                bounds={"N": N, "counts": "<= 2", "data_len": "<= %d" % Dd, "std": "c++" + std, "build": mode}))
     # extreme data length: the member after a <data> whose length is at the top of its (uint8) length type
     for (xml, std, mode) in c02.plan(ctx)[:2 if ctx.quick else None]:
         sch, inc = hgen.gen_headers(ctx, xml)
